@@ -8,11 +8,13 @@ exprs = ["@", "a", "a.b", "a[0]", "a[*].b", "length(a)", "keys(@)", "a || b", "`
          "[a, b]", "to_string(a)", "type(@)", "sort_by(a, &b)", "a[", "a..b", "a.b.", "nosuch(a)", "abs(a)", "a[::0]", "length(@)", "join(', ', a)",
          "max_by(a, &b)", "a | [0]", "!a", "a == `1`", "not_null(a, b, `null`)", "&a", "*", "b.*", "a[].b", "s", "s | length(@)", "n", "big", "neg", "f",
          # results that are not strings although they print with quotes (an expression reference), for --unquoted
-         "not_null(&a)", "to_array(&a)[0]", "not_null(z, &s)", "[not_null(&a)]", "type(not_null(&a))"]
+         "not_null(&a)", "to_array(&a)[0]", "not_null(z, &s)", "[not_null(&a)]", "type(not_null(&a))",
+         # one kind of quote inside a token delimited by another kind (odd counts of each kind: still a sentence)
+         "\"it's\"", "'say \"hi'", "`\"it's\"`", "'`'", "'5\" pipe'", "\"a`b\"", "`\"'\"`", "'\"' == `\"\\\"\"`"]
 inputs = ["{\"a\": [{\"b\": 2}, {\"b\": 1}], \"b\": {\"x\": \"y\"}}", "{\"a\": \"string value\", \"b\": null}", "{\"a\": -3}", "[1, 2, 3]", "\"just a string\"",
           "null", "{\"s\": \"é😀\\\"\\\\\\n\", \"n\": 1.5, \"big\": 18446744073709551615, \"neg\": -9223372036854775808, \"f\": 1e300}",
           "{\"a\": [\"x\", \"y\"], \"a\": [\"dup\", \"keys\"]}", "{\"a\": [[1, [2]], [3]]}", "  {\"a\" : { \"b\" : [ ] } }  ", "{\"a\": 1e400}",
-          "{a: 1}", "", "{\"a\": ", "[1, 2,]", "nul", "{\"a\": \"\\ud800\"}", "12 34"]
+          "{a: 1}", "", "{\"a\": ", "[1, 2,]", "nul", "{\"a\": \"\\ud800\"}", "12 34", "{\"it's\": 7, \"a`b\": 8, \"a\": {\"b\": \"x\"}}"]
 # failing compiles of long one-line expressions with multi-byte characters at every alignment around the error position
 exprs += ['"' + "\u2603" * k + '" ||| b' for k in range(30, 42)] + ["foo ||| '" + "\u00e9" * k + "'" for k in range(30, 42)] + \
          ["'" + "\U0001F600" * k + "' | a[" for k in (16, 17, 18, 19, 20, 40)] + ["a." * 40 + "b", "a." * 40 + ".b", "length(k)", "k"]
